@@ -121,6 +121,12 @@ def gen_tree(rng, depth=0, nmax=6):
     for _ in range(rng.randint(1, nmax)):
         k = gen_key(rng, used)
         out.append([k, gen_leaf(rng, depth)])
+    dicts = [k for k, leaf in out if leaf['t'] == 'dict']
+    if dicts and rng.random() < 0.25:
+        # the same dictionary OBJECT under a second name (results often share
+        # sub-dictionaries, e.g. one spectrum dictionary in two places)
+        out.append([gen_key(rng, used), {'t': 'alias',
+                                         'ref': rng.choice(dicts)}])
     return out          # list of [key, leaf] keeps order and non-str keys
 
 
@@ -164,6 +170,8 @@ def retype_leaf(rng, leaf):
         return {'t': t, 'v': [retype_tree(rng, x) for x in leaf['v']]}
     if t == 'dict':
         return {'t': t, 'v': retype_tree(rng, leaf['v'])}
+    if t == 'alias':
+        return dict(leaf)
     raise ValueError(t)
 
 
@@ -207,8 +215,20 @@ def leaf_from_object(v):
 def materialise(tree):
     d = {}
     for k, leaf in tree:
-        d[k] = mat_leaf(leaf)
+        if leaf['t'] != 'alias':
+            d[k] = mat_leaf(leaf)
+    for k, leaf in tree:
+        if leaf['t'] == 'alias' and leaf['ref'] in d:
+            d[k] = d[leaf['ref']]           # the same object, not a copy
     return d
+
+
+def resolve_alias(tree, leaf):
+    """The dict leaf an alias stands for (None if it was shrunk away)."""
+    for k, other in tree:
+        if k == leaf['ref'] and other['t'] == 'dict':
+            return other
+    return None
 
 
 def mat_leaf(leaf):
@@ -406,6 +426,13 @@ def generate(run_seed, tier):
             if o.random() < 0.4:
                 ops += [['close'], ['open', 'a']]
     elif cfg['part'] == 'reload':
+        if o.random() < 0.4:
+            # the model has been evaluated, then parameters were changed, and
+            # it is written before the next evaluation
+            ops.append(['evaluate_model'])
+            for _ in range(o.randint(1, 3)):
+                ops.append(['set_model_param', o.randrange(10**6),
+                            o.uniform(1.03, 1.3)])
         ops.append(['write_model'])
         if o.random() < 0.5:
             ops += [['close'], ['open', 'a'],
@@ -492,6 +519,8 @@ def plan_ops(ops):
             if ('Output',) not in all_groups:
                 all_groups.add(('Output',))
                 out.append(op)
+        elif k in ('evaluate_model', 'set_model_param'):
+            out.append(op)
         elif k in ('store_spectrum', 'write_model'):
             nm = op[3] if k == 'store_spectrum' else 'ModelParameters'
             if (nm,) not in all_groups:
@@ -578,6 +607,10 @@ def compare_leaf(viol, path, leaf, node, faults):
 def compare_tree(viol, path, tree, group, faults):
     for k, leaf in tree:
         name = str(k)
+        if leaf['t'] == 'alias':
+            leaf = resolve_alias(tree, leaf)
+            if leaf is None:
+                continue
         if leaf['t'] == 'dictlist':
             for i, sub in enumerate(leaf['v']):
                 node = group.get('%s%d' % (name, i))
@@ -609,6 +642,8 @@ def compare_tree(viol, path, tree, group, faults):
 def count_leaf_types(tree, acc, depth=0):
     for k, leaf in tree:
         acc.add((leaf['t'], depth))
+        if leaf['t'] == 'alias':
+            continue
         if leaf['t'] == 'dict':
             count_leaf_types(leaf['v'], acc, depth + 1)
         elif leaf['t'] == 'dictlist':
@@ -751,6 +786,18 @@ def execute(case, keep_text=False):
                 outg.store_dictionary(sol, group_name='Solutions')
                 opt.write(o)
                 opt._observed.write(o.create_group('Observed'))
+            elif k == 'evaluate_model':
+                model.model()
+            elif k == 'set_model_param':
+                names_ = sorted(n for n, t in model.fittingParameters.items()
+                                if isinstance(t[2](), (int, float)) and
+                                t[2]() > 0 and not n.startswith('atm_'))
+                if names_:
+                    n_ = names_[op[1] % len(names_)]
+                    t_ = model.fittingParameters[n_]
+                    t_[3](t_[2]() * op[2])
+                    if r == 0:
+                        out.bump('probes', 'parameter_changed_before_write')
             elif k == 'write_model':
                 model.write(o)
                 if r == 0:
@@ -1101,8 +1148,14 @@ def check_reload(viol, out, fname, model, cfg):
     order2 = [cls2cfg[type(c).__name__] for c in m2.contribution_list]
     if order2 != [cls2cfg[type(c).__name__] for c in model.contribution_list]:
         out.bump('probes', 'reload_changed_contribution_order')
-        r1 = R.build_model(cfg['model'], install=False,
-                           contrib_order=order2).model()
+        mref = R.build_model(cfg['model'], install=False,
+                             contrib_order=order2)
+        for n_, t_ in model.fittingParameters.items():
+            # (parameters may have been changed after the build)
+            if n_ in mref.fittingParameters and \
+                    mref.fittingParameters[n_][2]() != t_[2]():
+                mref.fittingParameters[n_][3](t_[2]())
+        r1 = mref.model()
     if not np.array_equal(r1[0], r2[0]) or \
             not np.allclose(r1[1], r2[1], rtol=1e-12, atol=0):
         viol('reload', 'spectrum', 'reloaded model gives a different spectrum '
